@@ -21,7 +21,11 @@ type fpoint struct{ k, v string }
 
 type floatCtx struct {
 	points  []fpoint
-	rounded []string // x terms of rnd64 applications
+	rounded []string    // x terms of rnd64 applications
+	divs    [][3]string // (numerator, divisor, quotient) of the divisions seen so far
+	muls    [][3]string // (factor, factor, product) of the products of two symbolic values seen so far
+	argOf   map[string]string // name or term of a rnd64 application -> its argument
+	cmpSeen map[string]bool
 	r32     []string
 	seenPt  map[string]bool
 	seenR   map[string]bool
@@ -152,6 +156,11 @@ func (e *Exec) floatRounded(t types.Type, x string, finc, nanc, pinf, ninf strin
 	k := e.define("fk", "Int", kindTerm)
 	x = e.nameReal("fx", x)
 	r := e.nameReal("fr", e.fl.round(e, x))
+	if e.fl.argOf == nil {
+		e.fl.argOf = map[string]string{}
+		e.fl.cmpSeen = map[string]bool{}
+	}
+	e.fl.argOf[r] = x
 	finc = e.defineBool(finc)
 	nanc = e.defineBool(nanc)
 	e.axiom(fmt.Sprintf("(and (<= 0 %s) (<= %s 3))", k, k))
@@ -200,6 +209,16 @@ func (e *Exec) floatBin(op string, a, b Value, t types.Type) Value {
 		return res
 	case "*":
 		x := e.nameReal("fx", realMul(av, bv))
+		// products with a common non-negative (non-positive) factor are ordered like the other factors
+		if !e.discovery && e.quiet == 0 && len(e.fl.muls) < 16 && !isRealLit(av) && !isRealLit(bv) {
+			for _, m := range e.fl.muls {
+				for _, pr := range [][4]string{{av, bv, m[0], m[1]}, {av, bv, m[1], m[0]}, {bv, av, m[0], m[1]}, {bv, av, m[1], m[0]}} {
+					// pr: (f, g) of this product, (f2, g2) of the earlier one; common factor g == g2
+					e.axiom(fmt.Sprintf("(=> (and (= %s %s) (>= %s 0.0)) (and (=> (<= %s %s) (<= %s %s)) (=> (<= %s %s) (<= %s %s))))", pr[1], pr[3], pr[1], pr[0], pr[2], x, m[2], pr[2], pr[0], m[2], x))
+				}
+			}
+			e.fl.muls = append(e.fl.muls, [3]string{av, bv, x})
+		}
 		// valid facts of real arithmetic that spare the solver nonlinear reasoning
 		for _, p := range [][2]string{{av, bv}, {bv, av}} {
 			a, b := p[0], p[1]
@@ -224,6 +243,14 @@ func (e *Exec) floatBin(op string, a, b Value, t types.Type) Value {
 	case "/":
 		// exact quotient only meaningful for a non-zero divisor
 		q := e.nameReal("fx", realDiv(av, bv))
+		// quotients by the same divisor are ordered like their numerators (ground instances, pairwise)
+		if !e.discovery && e.quiet == 0 && len(e.fl.divs) < 24 {
+			for _, d := range e.fl.divs {
+				e.axiom(fmt.Sprintf("(=> (and (= %s %s) (> %s 0.0)) (and (=> (<= %s %s) (<= %s %s)) (=> (<= %s %s) (<= %s %s))))", bv, d[1], bv, av, d[0], q, d[2], d[0], av, d[2], q))
+				e.axiom(fmt.Sprintf("(=> (and (= %s %s) (< %s 0.0)) (and (=> (<= %s %s) (>= %s %s)) (=> (<= %s %s) (>= %s %s))))", bv, d[1], bv, av, d[0], q, d[2], d[0], av, d[2], q))
+			}
+			e.fl.divs = append(e.fl.divs, [3]string{av, bv, q})
+		}
 		// valid facts of real arithmetic about quotients (spare the solver nonlinear reasoning)
 		e.axiom(fmt.Sprintf("(=> (> %s 0.0) (and (=> (>= %s 0.0) (>= %s 0.0)) (=> (<= %s 0.0) (<= %s 0.0)) (=> (<= %s %s) (<= %s 1.0)) (=> (>= %s %s) (>= %s 1.0)) (=> (>= %s (- %s)) (>= %s (- 1.0)))))", bv, av, q, av, q, av, bv, q, av, bv, q, av, bv, q))
 		e.axiom(fmt.Sprintf("(=> (< %s 0.0) (and (=> (>= %s 0.0) (<= %s 0.0)) (=> (<= %s 0.0) (>= %s 0.0)) (=> (>= %s %s) (<= %s 1.0)) (=> (<= %s %s) (>= %s 1.0))))", bv, av, q, av, q, av, bv, q, av, bv, q))
@@ -251,6 +278,25 @@ func (e *Exec) floatBin(op string, a, b Value, t types.Type) Value {
 	}
 	unsupportedf("float operator %s", op)
 	return Value{}
+}
+
+// cmpHint: when two rounded values are compared, state the monotonicity of rounding for exactly that pair
+// (the pairwise instances emitted at rounding time are capped).
+func (e *Exec) cmpHint(a, b Value) {
+	if e.discovery || e.quiet > 0 || e.fl.argOf == nil || len(a.S) < 2 || len(b.S) < 2 {
+		return
+	}
+	x, ok1 := e.fl.argOf[fv(a)]
+	y, ok2 := e.fl.argOf[fv(b)]
+	if !ok1 || !ok2 || x == y {
+		return
+	}
+	key := x + "|" + y
+	if e.fl.cmpSeen[key] || e.fl.cmpSeen[y+"|"+x] {
+		return
+	}
+	e.fl.cmpSeen[key] = true
+	e.axiom(fmt.Sprintf("(and (=> (<= %s %s) (<= %s %s)) (=> (<= %s %s) (<= %s %s)))", x, y, fv(a), fv(b), y, x, fv(b), fv(a)))
 }
 
 func floatCmp(op string, a, b Value) string {
@@ -402,6 +448,8 @@ func (e *Exec) mathCall(name string, args []Value, t types.Type) (Value, bool) {
 			body = fmt.Sprintf("(to_real (trunc %s))", fv(a))
 		}
 		v := e.define("fround", "Real", body)
+		// an integer-valued argument is its own rounding (spares the solver to_int reasoning)
+		e.axiom(fmt.Sprintf("(=> (is_int %s) (= %s %s))", fv(a), v, fv(a)))
 		e.fl.addPoint(e, fk(a), v)
 		return Value{T: t, S: []string{fk(a), v}}, true
 	case "math.Abs":
